@@ -142,6 +142,7 @@ def run(tier, seed):
     impl = run_engine(runner, lines)
     model = run_engine(driver_path(), lines) if lean["build_ok"] else {}
     standard_compare(res, cases, impl, model)
+    concurrent_pass(res, RUNNER, lines, cases, impl)
     # the BLAKE2b buffering families once more on the SIMD build (its `update` is separate code): same answers as the stable build
     sl = [(c, l) for c, l in zip(cases, lines) if "/buffer-window" in c.cls or c.cls.startswith(("generichash_obj/", "generichash/empty-key"))
           or (c.line.startswith("generichash") and c.cls.endswith(("/boundary", "/3-way")))]
